@@ -75,8 +75,11 @@ func genScript(en *Env, nkeys int, vs *h.Values, n int, batches bool) []scriptSt
 			sc = append(sc, scriptStep{"Merge", 0, 0, 0})
 		case c < 94:
 			sc = append(sc, scriptStep{"Restart", 0, 0, 0})
-		case c < 97:
+		case c < 96:
 			sc = append(sc, scriptStep{"Iterate", 0, 0, r.Intn(4)})
+		case c < 99:
+			// an iterator that stays open across an overwrite and a delete of keys it has not yielded yet
+			sc = append(sc, scriptStep{"IterMut", k, val(), r.Intn(2)})
 		default:
 			sc = append(sc, scriptStep{"Put", k, val(), 0})
 		}
@@ -109,6 +112,48 @@ func iterate(e *h.Eng, a int) {
 	})
 }
 
+// iterMut: an iterator is opened, half of it is consumed, then key k is overwritten and its neighbour deleted
+// (ordinary recorded calls), then the rest is consumed; everything the iterator yields goes into the transcript,
+// which must not depend on the configuration.
+func iterMut(e *h.Eng, st scriptStep, nkeys int) {
+	var it *kv.Iterator
+	seq := []int{}
+	take := func(max int) string {
+		var name string
+		h.WithoutCapture(func() {
+			name = h.Guard(h.CallTimeout, func() error {
+				for n := 0; it.Valid() && n < max; n++ {
+					v, err := it.Value()
+					if err != nil {
+						return err
+					}
+					seq = append(seq, e.U.Rank(it.Key()), e.V.ID(v))
+					it.Next()
+				}
+				return nil
+			})
+		})
+		return name
+	}
+	h.WithoutCapture(func() {
+		h.Guard(h.CallTimeout, func() error {
+			it = e.DB.NewIterator(kv.IteratorOptions{Reverse: st.a&1 == 1})
+			it.Rewind()
+			return nil
+		})
+	})
+	if it == nil {
+		e.TxAdd("IM none|")
+		return
+	}
+	n1 := take(nkeys / 2)
+	e.Do(h.Step{Op: "Put", K: st.k, V: st.v})
+	e.Do(h.Step{Op: "Delete", K: st.k%nkeys + 1})
+	n2 := take(1 << 20)
+	h.WithoutCapture(func() { h.Guard(h.CallTimeout, func() error { it.Close(); return nil }) })
+	e.TxAdd("IM %d %s %s %v|", st.a, n1, n2, seq)
+}
+
 func dirHash(dir string) string {
 	hs := sha1.New()
 	ids := h.DataFileIDs(dir)
@@ -136,6 +181,15 @@ func profLockstep(en *Env) {
 		vs := h.NewValues()
 		batches := s%3 != 2 // every third script is batch-free (byte comparison)
 		sc := genScript(en, nkeys, vs, steps, batches)
+		if !batches {
+			// the byte comparison needs a layout that is a function of the operation sequence: Merge rewrites the
+			// older files in the iteration order of a Go map, so merged layouts legitimately differ from run to run
+			for i := range sc {
+				if sc[i].op == "Merge" {
+					sc[i] = scriptStep{"Sync", 0, 0, 0}
+				}
+			}
+		}
 		u := h.PickKeys(en.R, nkeys, 6+en.R.Intn(6))
 		if s%3 == 0 {
 			// very long keys, all live, merged and restarted twice: the hint path must not depend on the index type
@@ -188,6 +242,8 @@ func profLockstep(en *Env) {
 						}
 					case "Iterate":
 						iterate(e, st.a)
+					case "IterMut":
+						iterMut(e, st, nkeys)
 					default:
 						e.Do(h.Step{Op: st.op, K: st.k, V: st.v, A: st.a})
 					}
